@@ -31,7 +31,7 @@ def obligations(tier):
            harness='C05_physrec', func='write_then_read_q', timeout=240, parts=16, stubs=stubs, tiers=()),
         Ob('payload_bytes_symbolic', 'ch', 'two records (4 and 2 bytes) with three fully symbolic payload bytes, TIF on/off',
            ['PhysRecWrite.writeLr', 'PhysRecRead.readLrBytes'], harness='C05_physrec', func='payload_bytes', timeout=120 if q else 600, stubs=stubs),
-        Ob('write_then_read_and_layout', 'ch', 'capacity 1..4, 8 trailer combinations, TIF on/off, record lengths 1..7 and 1..5',
+        Ob('write_then_read_and_layout', 'ch', 'trailer file number 7 / 0 / 65535 when present; capacity 1..4, 8 trailer combinations, TIF on/off, record lengths 1..7 and 1..5',
            ['LIS.core.PhysRec.PhysRecWrite.writeLr', 'PhysRecTail.*', 'PhysRecRead._readHead/_readTail/__readOrSkip/readLrBytes/skipLrBytes/skipToNextLr/seekLr/tellLr',
             'TifMarker.TifMarkerWrite.write/close', 'TifMarkerRead.read/_read/reset', 'File.FileWrite/FileRead', 'RawStream'],
            harness='C05_physrec', func='write_then_read', timeout=600, parts=16, stubs=stubs),
